@@ -225,7 +225,7 @@ fn classify(cfg: &Cfg, r: &ReqLit) -> Class {
         }
     };
     if r.method != "GET" {
-        return Class::Invalid(format!("method={}", if r.method.eq_ignore_ascii_case("GET") { "get-other-case" } else { r.method.as_str() }));
+        return Class::Invalid(format!("method={}", if r.method.eq_ignore_ascii_case("GET") { "get-other-case" } else { "not-GET" }));
     }
     let (_, path, query) = r.split_uri();
     if path != "/ws" {
@@ -633,7 +633,7 @@ async fn judge_inproc(state: &State, cfg: &Cfg, r: &ReqLit, sink: &Sink<'_>, tra
                 t.seen_fallback_equal.fetch_add(1, Ordering::Relaxed);
             } else {
                 sink.viol(
-                    format!("obfs.{}-distinguishable.backend-{}", path_class(&path), cfg.backend),
+                    format!("obfs.{}-distinguishable", path_class(&path)),
                     format!("with obfuscation on, {path} answers {} but the unknown path {tp} answers {} [{cfgs}] {}", last.0.brief(), last.1.brief(), r.to_json()),
                     rj(),
                 );
@@ -676,7 +676,7 @@ async fn judge_inproc(state: &State, cfg: &Cfg, r: &ReqLit, sink: &Sink<'_>, tra
             if out.status() == Some(101) {
                 if invalid {
                     sink.viol(
-                        format!("upgrade-granted.{why}.psk-{}", if cfg.psk.is_some() { "configured" } else { "none" }),
+                        format!("upgrade-granted.{why}"),
                         format!("101 although the request is not valid ({why}) [{cfgs}] {}", r.to_json()),
                         rj(),
                     );
@@ -711,7 +711,7 @@ async fn judge_inproc(state: &State, cfg: &Cfg, r: &ReqLit, sink: &Sink<'_>, tra
                 }
             } else {
                 sink.viol(
-                    format!("ws-fallback-differs.{why}.backend-{}", cfg.backend),
+                    format!("ws-fallback-differs.{why}"),
                     format!("a non-upgradable request to /ws ({why}) answers {} but the same request on the unknown path {tp} answers {} [{cfgs}] {}", last.0.brief(), last.1.brief(), r.to_json()),
                     rj(),
                 );
@@ -1114,7 +1114,7 @@ async fn judge_wire(state: &State, cfg: &Cfg, r: &ReqLit, sink: &Sink<'_>) -> Wi
             Class::Invalid(why) => {
                 t.ref_invalid.fetch_add(1, Ordering::Relaxed);
                 if is101 {
-                    sink.viol(format!("upgrade-granted.{why}.psk-{}", if cfg.psk.is_some() { "configured" } else { "none" }), format!("101 although the request is not valid ({why}) [{cfgs}] {}", r.to_json()), rj());
+                    sink.viol(format!("upgrade-granted.{why}"), format!("101 although the request is not valid ({why}) [{cfgs}] {}", r.to_json()), rj());
                     return w;
                 }
                 must_equal_twin = true;
@@ -1140,7 +1140,7 @@ async fn judge_wire(state: &State, cfg: &Cfg, r: &ReqLit, sink: &Sink<'_>) -> Wi
                 Class::Invalid(w) | Class::Silent(w) => w.clone(),
                 Class::Valid => "valid".into(),
             };
-            let key = if path == "/ws" { format!("ws-fallback-differs.{why}.backend-none") } else { format!("obfs.{}-distinguishable.backend-none", path_class(&path)) };
+            let key = if path == "/ws" { format!("ws-fallback-differs.{why}") } else { format!("obfs.{}-distinguishable", path_class(&path)) };
             sink.viol(key, format!("{path} answers {} but the unknown path {} answers {} [{cfgs}] {}", w.out.brief(), twin.path(), tw.out.brief(), r.to_json()), rj());
         }
     }
